@@ -246,6 +246,12 @@ Definition lmr (d mCount : Z) (improving : bool) (nType : Z) : res Z :=
 (* ------------------------------------------------------------------------------------------ *)
 (* search.go:481-607  quiescence *)
 
+(* staticEvaluation (search.go, /repo 73ba4a5): the evaluation kept strictly inside the non-mate score
+   range; Clamp(x, a, b) = min(b, max(x, a)) on constants that fit int16 *)
+Definition static_evaluation (b : board) : Z :=
+  clamp (Eval.eval_Z Coeffs.Coefficients b)
+        (- SearchParams.Inf + SearchParams.MaxPlies + 1) (SearchParams.Inf - SearchParams.MaxPlies - 1).
+
 Definition rt := (Z * sstate * board)%type.   (* value, state, board left behind *)
 
 Section Quiescence.
@@ -319,7 +325,7 @@ Section Quiescence.
       let inCheck := in_check b (stm b) in
       if (if inCheck then Mate.is_checkmate b else false) then Ok (add16 (- SearchParams.Inf) (wrap16 ply), st, b) else
       if (if inCheck then false else Mate.is_stalemate b) then Ok (0, st, b) else
-      let standPat := Eval.eval_Z Coeffs.Coefficients b in
+      let standPat := static_evaluation b in
       if negb inCheck && (beta <=? standPat) then Ok (standPat, st, b) else
       let st := set_ms st (Picker.store_push (s_ms st)) in
       do '(v, st1, b1) <- qs_pushed st b alpha beta ply standPat;;
@@ -447,7 +453,7 @@ Section AlphaBeta.
 
   Definition ab_static (st : sstate) (b : board) (beta d ply : Z) (inCheck : bool) : res (early * sstate * board) :=
     if inCheck then Ok (GoOn SearchParams.Inv false, st, b) else
-    let staticEval := Eval.eval_Z Coeffs.Coefficients b in
+    let staticEval := static_evaluation b in
     let top3 := match hs_top (s_hs st) 3 with Some old => h_score old | None => SearchParams.Inv end in
     let oldScore := match hs_top (s_hs st) 1 with
                     | Some old => if negb (h_score old =? SearchParams.Inv) then h_score old else top3
